@@ -21,10 +21,10 @@ func init() {
 		Run:   runC13,
 		Explanation: "C13.shorten: Size.Shorten is evaluated abstractly on a 64-bit vector whose 10·k low bits are zero and whose k-th group of ten bits is not (k = 0..6), literal tables resolved to their contents, helper functions inlined: every path returns (s >> 10k, the k-th of B, KiB, MiB, GiB, TiB, PiB, EiB); zero returns (0, B). Bit tests on part of the deciding group are explored both ways. " +
 			"C13.methods: String / PrettyString / PrettyHTML evaluate to Formatter(<nil or fresh zero-length buffer>, s, 0 / FormatPretty / FormatPretty|FormatHTML) converted, independent of the marshal switches; formatter error: decimal fallback resp. panic; Formatter is initialised to DefaultFormatter. C13.buffer: the digit text and the destination do not share storage (append-only and buffer-independence rules of C16 on size.DefaultFormatter). C13.sep: appendSeparator as a decision table over (pretty bit, HTML bit): nothing / \" \" / \"&nbsp;\" / nothing. " +
-			"C13.group: residue analysis mod 3 of the grouping condition: a separator follows exactly the digits with a multiple of three digits to their right (9 residue pairs, exhaustive); C13.emit: the formatter converts Shorten's value with strconv in base 10, appends each digit of that text once in order (separators only through appendSeparator), then the unit, and returns that buffer.",
+			"C13.format: size.DefaultFormatter evaluated abstractly for every digit count 1..20 (all a uint64 can have) and each of the four flag combinations, Shorten's results opaque and the decimal text n symbolic digits: the result is buf, the digits in order with that combination's separator after every digit that has a multiple of three digits to its right (one before the unit), then the unit, and nothing else. Loop form, helper functions and how the separator is obtained do not matter.",
 		NotDecided:  []string{"the inductive value invariant value·1024^steps = size of the Shorten loop for all 2^64 sizes (follows from mask/shift agreement; stated, not machine-checked)"},
 		Assumptions: []string{"strconv.FormatUint prints canonical decimal"},
-		Technique:   "constant-table reading + SSA pattern rules + residue-class enumeration",
+		Technique:   "abstract evaluation over exhaustive scenario partitions (trailing-zero groups of the size; digit counts x flags of the rendering) + decision tables over go/ssa",
 	})
 }
 
@@ -34,7 +34,7 @@ func runC13(e *Env) {
 	ruleFormatSem(e, "C13.format")
 	ruleC13Methods(e)
 	// the digit text and the destination buffer must not share storage, and the caller's prefix is only appended to
-	if df := e.Fn("C13.emit", "size", "DefaultFormatter"); df != nil {
+	if df := e.Fn("C13.buffer", "size", "DefaultFormatter"); df != nil {
 		e.FlowAs(map[string]string{"C16.indep": "C13.buffer", "C16.append": "C13.buffer"}, func(c *flow.Ctx) {
 			c.RuleAppendOnly(df)
 			c.RuleBufIndependent(df)
